@@ -130,6 +130,20 @@ def gen_consts(ctx):
     if rc != 0:
         raise Violation("constants translator failed: %s" % err.strip(),
                         {"kind": "translator", "detail": err.strip()}, no_input=True)
+    # constants that could not be located in the source are pinned to the last proved values (see the
+    # header of tools/gen_consts.py): not a verdict by itself -- the correspondence run decides
+    try:
+        st = json.load(open(os.path.join(COQ, "Generated", "consts_status.json")))
+    except Exception:
+        st = {}
+    pinned = list(st.get("pinned") or [])
+    if st.get("translator_error"):
+        pinned.append("WHOLE TRANSLATOR: " + st["translator_error"])
+    if pinned:
+        ctx.coverage["constants_pinned_not_located"] = pinned
+        ctx.assumptions.append("%d constant(s) could not be located in the current source and are pinned to the last "
+                               "proved values; for them the theorems are tied to the code by the correspondence run only: %s"
+                               % (len(pinned), "; ".join(p[:160] for p in pinned[:6])))
 
 
 def _refresh_makefile():
